@@ -12,6 +12,27 @@
 use super::*;
 use ::core::task::{RawWaker, RawWakerVTable};
 
+/// Work-around for a Kani 0.68 layout bug: the goto type generated for the niche-encoded enum
+/// `ParameterValue` (Bytes + PreferredAddress variants) is LARGER than rustc's `size_of`, so
+/// `Box::new` / `Arc::new` of a value containing it (Arc<Parameters<R>>) writes past the object the
+/// allocator returned (spurious "pointer outside object bounds", and the copy is corrupted).
+/// Every heap object gets 64 bytes of slack; deallocation is a no-op (sizes no longer match).
+/// Given up in these harnesses: detection of heap overflows < 64 bytes and of bad deallocations.
+pub(crate) unsafe fn stub_alloc_slack(layout: std::alloc::Layout) -> *mut u8 {
+    unsafe {
+        std::alloc::alloc_zeroed(std::alloc::Layout::from_size_align_unchecked(layout.size() + 64, layout.align()))
+    }
+}
+pub(crate) unsafe fn stub_dealloc_leak(_ptr: *mut u8, _layout: std::alloc::Layout) {}
+pub(crate) unsafe fn stub_realloc_slack(ptr: *mut u8, layout: std::alloc::Layout, new_size: usize) -> *mut u8 {
+    unsafe {
+        let new = std::alloc::alloc_zeroed(std::alloc::Layout::from_size_align_unchecked(new_size + 64, layout.align()));
+        let n = if layout.size() < new_size { layout.size() } else { new_size };
+        ::core::ptr::copy_nonoverlapping(ptr, new, n);
+        new
+    }
+}
+
 /// Arbitrary connection id: length 0..=20, arbitrary bytes (also beyond `len`, as
 /// `ConnectionId::random_gen` leaves them).
 fn any_cid() -> ConnectionId {
@@ -157,6 +178,9 @@ fn auth_client<const LS: u8, const LO: u8, const LDS: u8, const LDO: u8>(
 
 /// C18 client, TLS extension before the first Initial packet; scid 8 bytes, odcid 8 bytes.
 #[kani::proof]
+#[kani::stub(std::alloc::alloc, stub_alloc_slack)]
+#[kani::stub(std::alloc::dealloc, stub_dealloc_leak)]
+#[kani::stub(std::alloc::realloc, stub_realloc_slack)]
 #[kani::unwind(10)]
 fn c18_auth_client_params_first() {
     auth_client::<8, 8, 8, 8>(true, kani::any());
@@ -164,6 +188,9 @@ fn c18_auth_client_params_first() {
 
 /// C18 client, first Initial packet before the TLS extension.
 #[kani::proof]
+#[kani::stub(std::alloc::alloc, stub_alloc_slack)]
+#[kani::stub(std::alloc::dealloc, stub_dealloc_leak)]
+#[kani::stub(std::alloc::realloc, stub_realloc_slack)]
 #[kani::unwind(10)]
 fn c18_auth_client_packet_first() {
     auth_client::<8, 8, 8, 8>(false, kani::any());
@@ -171,6 +198,9 @@ fn c18_auth_client_packet_first() {
 
 /// C18 client, boundary lengths: 20-byte scid, empty odcid (symbolic arrival order).
 #[kani::proof]
+#[kani::stub(std::alloc::alloc, stub_alloc_slack)]
+#[kani::stub(std::alloc::dealloc, stub_dealloc_leak)]
+#[kani::stub(std::alloc::realloc, stub_realloc_slack)]
 #[kani::unwind(22)]
 fn c18_auth_client_len_20_0() {
     auth_client::<20, 0, 20, 0>(kani::any(), false);
@@ -178,6 +208,9 @@ fn c18_auth_client_len_20_0() {
 
 /// C18 client, declared cids of another length than the observed ones: always refused.
 #[kani::proof]
+#[kani::stub(std::alloc::alloc, stub_alloc_slack)]
+#[kani::stub(std::alloc::dealloc, stub_dealloc_leak)]
+#[kani::stub(std::alloc::realloc, stub_realloc_slack)]
 #[kani::unwind(10)]
 fn c18_auth_client_len_mismatch() {
     auth_client::<8, 8, 8, 4>(kani::any(), false);
@@ -245,6 +278,9 @@ fn auth_server<const LW: u8, const LD: u8>(params_first: bool) {
 
 /// C18 server, client parameters before / after the first Initial packet (symbolic order), 8-byte cids.
 #[kani::proof]
+#[kani::stub(std::alloc::alloc, stub_alloc_slack)]
+#[kani::stub(std::alloc::dealloc, stub_dealloc_leak)]
+#[kani::stub(std::alloc::realloc, stub_realloc_slack)]
 #[kani::unwind(10)]
 fn c18_auth_server_len_8() {
     auth_server::<8, 8>(kani::any());
@@ -252,12 +288,18 @@ fn c18_auth_server_len_8() {
 
 /// C18 server, boundary lengths 20 and 0.
 #[kani::proof]
+#[kani::stub(std::alloc::alloc, stub_alloc_slack)]
+#[kani::stub(std::alloc::dealloc, stub_dealloc_leak)]
+#[kani::stub(std::alloc::realloc, stub_realloc_slack)]
 #[kani::unwind(22)]
 fn c18_auth_server_len_20() {
     auth_server::<20, 20>(kani::any());
 }
 
 #[kani::proof]
+#[kani::stub(std::alloc::alloc, stub_alloc_slack)]
+#[kani::stub(std::alloc::dealloc, stub_dealloc_leak)]
+#[kani::stub(std::alloc::realloc, stub_realloc_slack)]
 #[kani::unwind(10)]
 fn c18_auth_server_len_0() {
     auth_server::<0, 0>(kani::any());
@@ -265,6 +307,9 @@ fn c18_auth_server_len_0() {
 
 /// C18 server, declared cid of another length than the observed one: always refused.
 #[kani::proof]
+#[kani::stub(std::alloc::alloc, stub_alloc_slack)]
+#[kani::stub(std::alloc::dealloc, stub_dealloc_leak)]
+#[kani::stub(std::alloc::realloc, stub_realloc_slack)]
 #[kani::unwind(10)]
 fn c18_auth_server_len_mismatch() {
     auth_server::<8, 5>(kani::any());
@@ -275,6 +320,9 @@ fn c18_auth_server_len_mismatch() {
 /// find it absent if there was no Retry). `authenticate_cids` ignores `retry_scid` (the check is
 /// commented out), so a mismatching / missing retry_source_connection_id is accepted.
 #[kani::proof]
+#[kani::stub(std::alloc::alloc, stub_alloc_slack)]
+#[kani::stub(std::alloc::dealloc, stub_dealloc_leak)]
+#[kani::stub(std::alloc::realloc, stub_realloc_slack)]
 #[kani::unwind(10)]
 fn c18_auth_client_retry_scid() {
     let odcid = cid_of_len::<8>();
@@ -314,6 +362,9 @@ fn any_duration() -> Duration {
 /// C18: effective idle timeout == the smaller non-zero of the two advertised values (absent == 0;
 /// both zero: no timeout, reported as Duration::MAX); None until the peer's parameters are ready.
 #[kani::proof]
+#[kani::stub(std::alloc::alloc, stub_alloc_slack)]
+#[kani::stub(std::alloc::dealloc, stub_dealloc_leak)]
+#[kani::stub(std::alloc::realloc, stub_realloc_slack)]
 #[kani::unwind(10)]
 fn c18_idle_timeout_negotiated() {
     let as_client: bool = kani::any();
